@@ -1,6 +1,10 @@
 use super::{Entry, Key};
 use core::hash::{BuildHasher, Hash};
+#[cfg(json_syntax_verif)]
+use crate::verif::table::{DefaultHashBuilder, RawTable};
+#[cfg(not(json_syntax_verif))]
 use hashbrown::hash_map::DefaultHashBuilder;
+#[cfg(not(json_syntax_verif))]
 use hashbrown::raw::RawTable;
 
 pub trait Equivalent<K: ?Sized> {
